@@ -445,6 +445,11 @@ def kernel_cases(tier, prec="d"):
             for ak, bk in ((2, 2), (0, 2), (2, 0), (1, 1), (2, 1), (0, 0)) if not (cplx and q) else ((2, 2), (0, 1), (1, 0)):
                 cs.append(kcase(1, m, n, pat, p1=ord(ch), p2=ak, p3=bk))
             cs.append(kcase(2, m, n, pat, p1=ord(ch), p2=2 if not cplx else 1, p3=2 if not cplx else 0, p4=2, p5=4 * 1 + 2)); cs.append(kcase(2, m, n, pat, p1=ord(ch), p2=2 if not cplx else 1, p3=1, p4=3 if not cplx else 1, p5=4 * 2 + 0))
+    # strided gemv: the implemented combinations (N: any incx with incy = 1; T/C: incx = 1 with any incy), rectangular A, negative increments
+    for (m, n, pat) in ([(2, 3, 0b111111), (3, 2, 0b101101), (3, 1, 0b110)] if not (cplx and q) else [(2, 3, 0b111111)]):
+        for ch in spell:
+            for inc in (2, -1, -2):
+                for ak, bk in ((2, 2), (0, 2), (1, 0)): cs.append(kcase(1, m, n, pat, p1=ord(ch), p2=ak, p3=bk, p4=inc if ch in "Nn" else 1, p5=1 if ch in "Nn" else inc))
     fshapes = [(3, 511, "t122", 0), (3, 511, "t212", 0), (3, C.band(3, 1, 1), "t111", 0), (5, C.dense(5, 5), "tn1n", 0), (5, C.dense(5, 5), "t122", 0), (6, C.band(6, 2, 2), "t313", 0), (9, C.dense(9, 9), "t1_8_8", 0), (10, C.dense(10, 10), "tn1n", 0)]
     if cplx and q: fshapes = [(3, 511, "t122", 0), (5, C.dense(5, 5), "tn1n", 0), (5, C.dense(5, 5), "t122", 0)]
     if not cplx: fshapes += [(2, 15, "t122", -1), (3, C.band(3, 1, 1), "t122", -1), (3, 511, "t122", 4)]
@@ -458,7 +463,7 @@ def kernel_cases(tier, prec="d"):
 
 
 def check_C14(chk, tier):
-    chk.assumptions += COMMON_ASSUME + ["strides incx = incy = 1 (others are documented as not implemented and abort)", "factor pairs for the triangular kernels come from real ?gstrf runs (concrete generic matrices: singleton and multi-column supernodes per tuning, plus symbolic small ones)"]
+    chk.assumptions += COMMON_ASSUME + ["strides: unit strides everywhere, plus the strided combinations the routine implements (no-transpose: any incx with incy = 1; transposed: incx = 1 with any incy, negative increments included); the remaining combinations abort as not implemented", "factor pairs for the triangular kernels come from real ?gstrf runs (concrete generic matrices: singleton and multi-column supernodes per tuning, plus symbolic small ones)"]
     for prec in precs(tier):
         run_phase(chk, "kernels/" + prec, H + "h_kernels.c", kernel_cases(tier, prec), ["C14."], prec=prec, budget_s=200 if tier == "quick" else 1800,
                   bounds="gemv/gemm: m x n <= 3x3 (3x4 thorough), all six flag spellings, alpha/beta in {0,1,symbolic}, nrhs<=3, ldb != ldc; trsv/gstrs: n<=10 (12) factor pairs from ?gstrf, all uplo/trans/diag, nrhs<=3",
